@@ -1,5 +1,3 @@
-import UF.Basic.Bytes
-import UF.Gen.Facts
-import UF.Model.Rule
-import UF.Model.Match
-import UF.Driver.Wire
+-- Root of the library: everything that must build (model, specs, proofs, property theorems, driver).
+import UF.Driver.Dispatch
+import UF.Props.C16
